@@ -54,7 +54,7 @@ func offers(ae, coding string) bool {
 
 func main() {
 	rep := kit.NewReport("C02", "exploration",
-		"8 site variants (also: a Casketfile named like a precompressed sibling, a catch-all site with absolute-form request targets; static, browse, browse+servearchive, address with path prefix, a Casketfile named like an index page, an earlier site on the listener rooted elsewhere) x request targets of 1..3 segments over an 18-symbol adversarial segment alphabet (x trailing slash x doubled leading slash) x {5 queries x html/json, 9 Accept-Encoding values (with zero qualities), HEAD}; every token found in the decoded/unarchived body must belong to the file the cleaned path names, its directory index, an accepted sibling, or (archives) a non-hidden file below it; redirects must start with exactly one '/'; distinct_nontrivial = outcome classes")
+		"8 site variants (also: a Casketfile named like a precompressed sibling, a catch-all site with absolute-form request targets; static, browse, browse+servearchive, address with path prefix, a Casketfile named like an index page, an earlier site on the listener rooted elsewhere) x request targets of 1..3 segments over an 18-symbol adversarial segment alphabet (x trailing slash x doubled leading slash) x {5 queries x html/json, 9 Accept-Encoding values (with zero qualities), HEAD}; every token found in the decoded/unarchived body must belong to the file the cleaned path names, its directory index, an accepted sibling, or (archives) a non-hidden file below it; the hidden file replaced by a new inode, and given a second name by a hard link, stays hidden; redirects must start with exactly one '/'; distinct_nontrivial = outcome classes")
 	kit.Init()
 	kit.Log.Off.Store(true)
 	base := kit.TempDir("c02")
@@ -332,6 +332,40 @@ func main() {
 				}
 			}
 			rep.Class("hidden-file-replaced")
+		}
+		// the hidden file has a second name inside the root (a hard link): it is the same file, and stays hidden under that name too
+		alias := filepath.Join(root, "dir2", "second-name.txt")
+		if err := os.Link(hp, alias); err == nil {
+			for _, tgt := range []string{"/dir2/second-name.txt", "//dir2/second-name.txt", "/dir2/", "/dir2/?archive=zip", "/?archive=zip", "/dir2/SECOND-NAME.TXT"} {
+				for _, hdrs := range [][]string{{"Accept-Encoding: gzip"}, {"Accept: application/json"}} {
+					raw := kit.Get("GET", v.prefix+tgt, "a.test:8080", hdrs...)
+					req, err := kit.Req(raw)
+					if err != nil {
+						continue
+					}
+					rec, pv, _ := kit.ServeReq(srv, req)
+					rep.Eval(1)
+					text := rec.Body.String()
+					if dec, err := kit.Gunzip(rec.Body.Bytes()); err == nil {
+						text = string(dec)
+					}
+					leaked := strings.Contains(text, tokens[hidden])
+					if members, ok := kit.Unarchive([]byte(text)); ok {
+						for name, c := range members {
+							leaked = leaked || strings.Contains(c, tokens[hidden]) || strings.Contains(name, "second-name")
+						}
+					} else if strings.HasSuffix(tgt, "/") && strings.Contains(text, "second-name") {
+						leaked = true // (named in a listing)
+					}
+					if pv != nil || leaked {
+						rep.Violation("C02/hidden-file-content/under-a-second-name", fmt.Sprintf("GET %s returned or listed the hidden file through its second name (a hard link inside the root)", tgt), c02case{Casketfile: cf, Request: raw, Status: rec.Status})
+					}
+				}
+			}
+			os.Remove(alias)
+			rep.Class("hidden-file-under-a-second-name")
+		} else {
+			rep.Broken("hard link: %v", err)
 		}
 		l.Close()
 		rep.Sample(map[string]interface{}{"variant": v.name, "casketfile": cf, "example_targets": []string{"/dir/..%2f/Casketfile", "//dir", "/%2e%2e/outside/outside.txt?archive=zip"}})
